@@ -156,19 +156,31 @@ def box_case(draw):
             if not hi[k] > lo[k]:
                 hi[k] = lo[k] + 1.0
     return {"lo": lo, "hi": hi, "kind": kind, "mode": rnd.choice(["uniform", "grid"]), "n": draw_count(draw, rnd),
-            "pc": rnd.random() < 0.3, "ctor": rnd.choice(["tuple", "list", "numpy"])}
+            "pc": rnd.random() < 0.3, "ctor": rnd.choice(["tuple", "list", "numpy"]),
+            "again": [rnd.choice(["uniform", "grid"]), rnd.choice([0, 1, 2, 5, 30, 64, 81]), rnd.random() < 0.3] if rnd.random() < 0.3 else None}
 
 
 def fn_box(case, ctx):
-    from mouette import sampling
     from mouette.geometry import AABB
     lo, hi, n, mode, pc = case["lo"], case["hi"], case["n"], case["mode"], case["pc"]
     d = len(lo)
     conv = {"tuple": tuple, "list": list, "numpy": lambda x: np.array(x)}[case["ctor"]]
-    box = AABB(conv(lo), conv(hi))
+    args = (conv(lo), conv(hi))
+    box = AABB(*args)
     ctx.label("dim=%d" % d, "mode=" + mode, "kind=" + case["kind"], "pc" if pc else "array",
               "n=0" if n == 0 else "n=1" if n == 1 else "n>1")
-    what = f"sample_AABB(AABB({lo},{hi}), {n}, mode={mode!r}, return_point_cloud={pc})"
+    check_box(box, args, case, n, mode, pc, ctx)
+    if case.get("again") and case["kind"] != "empty":
+        ctx.label("second-call")
+        mode2, n2, pc2 = case["again"]
+        check_box(box, args, case, n2, mode2, pc2 and d <= 3, ctx, note=f" [second request on the same AABB object, after mode={mode!r}]", first=False)
+
+
+def check_box(box, args, case, n, mode, pc, ctx, note="", first=True):
+    from mouette import sampling
+    lo, hi = case["lo"], case["hi"]
+    d = len(lo)
+    what = f"sample_AABB(AABB({lo},{hi}), {n}, mode={mode!r}, return_point_cloud={pc}){note}"
     if case["kind"] == "empty":
         ctx.label("expect-raise")
         expect_raises(ctx, "box:empty-accepted", (Exception,), what, sampling.sample_AABB, box, n, mode=mode, return_point_cloud=pc)
@@ -180,6 +192,11 @@ def fn_box(case, ctx):
     ok, res = ctx.call("box:call", sampling.sample_AABB, box, n, mode=mode, return_point_cloud=pc)
     if not ok:
         return
+    # neither the box handed in nor the corner sequences it was built from are altered by sampling it
+    L, H = np.array(lo, dtype=float), np.array(hi, dtype=float)
+    ctx.check(bool(np.all(np.asarray(box.mini, dtype=float) == L) and np.all(np.asarray(box.maxi, dtype=float) == H)
+                   and list(args[0]) == list(lo) and list(args[1]) == list(hi)), "box:mutated",
+              f"{what}: the box changed to {box} (corner arguments now {args})")
     P = as_points(res, pc, ctx, "box")
     if P is None:
         return
@@ -187,7 +204,7 @@ def fn_box(case, ctx):
     expected = n if mode == "uniform" else r ** d
     unit = all(l == 0 for l in lo) and all(h == 1 for h in hi)
     ctx.nontrivial(not unit and expected > 0)
-    if mode == "grid":
+    if mode == "grid" and first:
         ctx.label("res=%s" % (r if r < 3 else ">=3"))
     if not ctx.check(P.shape[0] == expected, "box:count",
                      f"{what}: {P.shape[0]} points, expected {expected}" + (f" (= {r}^{d})" if mode == "grid" else "")):
@@ -200,7 +217,6 @@ def fn_box(case, ctx):
     P = P[:, :d]
     if expected == 0:
         return
-    L, H = np.array(lo, dtype=float), np.array(hi, dtype=float)
     scale = float(max(np.max(np.abs(L)), np.max(np.abs(H))))
     tol = 1e-12 * scale
     ctx.check(bool(np.all(np.isfinite(P))), "box:finite", f"{what}: non-finite coordinates")
@@ -224,9 +240,6 @@ def fn_box(case, ctx):
             return
         keys = set(map(tuple, idx.tolist()))
         ctx.check(len(keys) == expected, "box:grid-distinct", f"{what}: only {len(keys)} distinct lattice nodes among {expected} points")
-    # the box handed in is not altered by sampling it
-    ctx.check(bool(np.all(np.asarray(box.mini, dtype=float) == L) and np.all(np.asarray(box.maxi, dtype=float) == H)), "box:mutated",
-              f"{what}: the box changed to {box}")
 
 
 def fn_box_mode(case, ctx):
@@ -256,29 +269,32 @@ def draw_radius(draw, rnd):
     if c < 0.08:
         return 1.0
     if c < 0.3:
-        return rnd.choice([0.5, 2.0, 8.0, 1e-3, 1e3, 0.9, 1.1])
+        return rnd.choice([0.5, 2.0, 8.0, 1e-3, 1e3, 0.9, 1.1, 2, 5, 1e-6, 1e6])      # 2, 5: integer-typed radius
+    if c < 0.4:
+        return rlog(rnd, -6, 6)
     return rlog(rnd)
 
 
 @st.composite
 def round_case(draw):
     rnd = mixer(draw)
-    return {"which": rnd.choice(["sphere", "ball"]), "center": draw_center(draw, rnd), "radius": draw_radius(draw, rnd),
-            "n": draw_count(draw, rnd), "pc": rnd.random() < 0.3}
+    c = draw_center(draw, rnd)
+    if all(float(x).is_integer() for x in c) and rnd.random() < 0.6:
+        c = [int(x) for x in c]                                                      # integer-typed Vec centre
+    return {"which": rnd.choice(["sphere", "ball"]), "center": c, "radius": draw_radius(draw, rnd),
+            "n": draw_count(draw, rnd), "pc": rnd.random() < 0.3,
+            "again": [rnd.choice(["sphere", "ball"]), rnd.randint(0, 60), rnd.random() < 0.3] if rnd.random() < 0.3 else None}
 
 
-def fn_round(case, ctx):
-    import mouette as M
+def check_round(which, centre, c, r, n, pc, ctx, note=""):
     from mouette import sampling
-    c, r, n, pc, which = case["center"], case["radius"], case["n"], case["pc"], case["which"]
     f = sampling.sample_sphere if which == "sphere" else sampling.sample_ball
-    what = f"sample_{which}(Vec{tuple(c)}, {r}, {n}, return_point_cloud={pc})"
-    ctx.label(which, "r<1" if r < 1 else "r=1" if r == 1 else "r>1", "centre=0" if not any(c) else "centre!=0",
-              "pc" if pc else "array", "n=0" if n == 0 else "n>0")
-    ctx.nontrivial((r != 1 or any(c)) and n > 0)
-    ok, res = ctx.call(which + ":call", f, M.Vec(*c), r, n, return_point_cloud=pc)
+    what = f"sample_{which}(Vec{tuple(c)}, {r!r}, {n}, return_point_cloud={pc}){note}"
+    ok, res = ctx.call(which + ":call", f, centre, r, n, return_point_cloud=pc)
     if not ok:
         return
+    ctx.check(len(centre) == 3 and all(type(a) is type(b) and a == b for a, b in zip(centre.tolist(), c)), which + ":centre-mutated",
+              f"{what}: the centre passed in is now {centre!r}")
     P = as_points(res, pc, ctx, which)
     if P is None:
         return
@@ -302,7 +318,29 @@ def fn_round(case, ctx):
                   f"({int((dist > r + slack).sum())} of {n} points outside)")
 
 
+def fn_round(case, ctx):
+    import mouette as M
+    c, r, n, pc, which = case["center"], case["radius"], case["n"], case["pc"], case["which"]
+    ctx.label(which, "r<1" if r < 1 else "r=1" if r == 1 else "r>1", "centre=0" if not any(c) else "centre!=0",
+              "pc" if pc else "array", "n=0" if n == 0 else "n>0", "r in 1e-3..1e3" if 1e-3 <= r <= 1e3 else "r extreme")
+    if isinstance(c[0], int):
+        ctx.label("int-centre")
+    if isinstance(r, int):
+        ctx.label("int-radius")
+    ctx.nontrivial((r != 1 or any(c)) and n > 0)
+    centre = M.Vec(*c)
+    check_round(which, centre, c, r, n, pc, ctx)
+    if case.get("again"):
+        # the same Vec object is the centre of a second request
+        ctx.label("second-call")
+        w2, n2, pc2 = case["again"]
+        check_round(w2, centre, c, r, n2, pc2, ctx, note=f" [second use of the centre object, after sample_{which}]")
+
+
 # =============================================================================================== polylines
+
+SCALES = [-6, -3, -2, -1, 0, 0, 0, 1, 2, 3, 6]
+
 
 def stretched(V, d, g=3.0):
     """stretch radially about the centroid by a factor 1/g .. g growing along the unit direction d (non-affine: length and area
@@ -313,7 +351,42 @@ def stretched(V, d, g=3.0):
     return c + (V - c) * np.exp(math.log(g) * ((V - c) @ np.asarray(d)) / R)[:, None]
 
 
-def stale_geometry(rnd, V, F=None):
+def nondegenerate(V, F):
+    """boolean mask: faces whose doubled area exceeds 1e-12 x (longest side)^2"""
+    V, F = np.asarray(V, dtype=float), np.asarray(F, dtype=int)
+    A, B, C = V[F[:, 0]], V[F[:, 1]], V[F[:, 2]]
+    dbl = np.linalg.norm(np.cross(B - A, C - A), axis=1)
+    L2 = np.maximum(np.maximum(np.sum((B - A) ** 2, axis=1), np.sum((C - B) ** 2, axis=1)), np.sum((A - C) ** 2, axis=1))
+    return dbl > 1e-12 * L2
+
+
+def add_degenerate_faces(rnd, V, F):
+    """1-to-3 split of a face (a,b,c) by a new vertex m placed ON the face's boundary: exactly at corner a (then (a,b,m) and (c,a,m) have
+    exactly zero area and (b,c,m) is the old triangle) or at the midpoint of side ab ((a,b,m) is collinear).  Same surface as a point set,
+    valid manifold connectivity; the three faces replace the old one in place, in a drawn order (degenerate faces are not last)."""
+    V, F = [list(v) for v in V], [list(f) for f in F]
+    k = rnd.randrange(len(F))
+    f = F[k]
+    r0 = rnd.randrange(3)
+    a, b, c = f[r0], f[(r0 + 1) % 3], f[(r0 + 2) % 3]
+    m = len(V)
+    how = rnd.choice(["corner", "corner", "midpoint"])
+    V.append(list(V[a]) if how == "corner" else [(x + y) / 2 for x, y in zip(V[a], V[b])])
+    new = [[a, b, m], [b, c, m], [c, a, m]]
+    rnd.shuffle(new)
+    return V, F[:k] + new + F[k + 1:], "degenerate=" + how
+
+
+def add_zero_edge(rnd, V, E):
+    """an extra vertex at the position of an existing one, joined to it by an (exactly) zero-length edge at a drawn place of the edge list"""
+    V, E = [list(v) for v in V], [list(e) for e in E]
+    a = rnd.randrange(len(V))
+    V.append(list(V[a]))
+    E.insert(rnd.randrange(len(E) + 1), [a, len(V) - 1] if rnd.random() < 0.5 else [len(V) - 1, a])
+    return V, E
+
+
+def stale_geometry(rnd, V, F=None, allow_dup=False):
     """An *earlier* geometry V0 of the same mesh (class 'cached-attr'): the case builds the mesh on V0, computes the persistent
     attributes a sampler could be tempted to reuse (edge 'length' / face 'area' / face 'normals'), then moves every vertex to V by
     rebinding mesh.vertices[i].  Samples, shares and normals must follow V.  Returns None when V0 would be degenerate."""
@@ -330,9 +403,12 @@ def stale_geometry(rnd, V, F=None):
     W = c + (W - c) * np.array([rnd.choice([0.4, 1.0, 2.5]) for _ in range(3)])
     if not np.all(np.isfinite(W)):
         return None
-    if F is not None and G.min_angle_deg(W.tolist(), F) < 3.0:
-        return None
-    if len(set(map(tuple, W.tolist()))) < len(W):
+    if F is not None:
+        keep = nondegenerate(V, F)                      # faces that are degenerate on purpose stay so (the map keeps coincidences)
+        Fk = [f for f, k in zip(F, keep) if k]
+        if Fk and G.min_angle_deg(W.tolist(), Fk) < 3.0:
+            return None
+    if not allow_dup and len(set(map(tuple, W.tolist()))) < len(W):
         return None
     return W.tolist()
 
@@ -394,17 +470,23 @@ def polylines(draw, mix, min_edges=1):
         if len(E) < min_edges:
             pts.append((1001, 1001, 1001)); E.append((n - 1, n)); n += 1
     E = [[int(a), int(b)] if rnd.randint(2) else [int(b), int(a)] for a, b in E]
-    s = 10.0 ** mix.choice([-3, -2, -1, 0, 0, 0, 1, 2, 3])
+    s = 10.0 ** mix.choice(SCALES)
     off = s * mix.choice([0.0, 0.0, 1.0, -7.5, 100.0])
     V = [[sig6(x * 1e-3 * s + off) if off == 0 else float(x * 1e-3 * s + off) for x in p] for p in pts]
-    return {"V": V, "E": E, "tags": ["kind=" + kind, "planar" if planar else "spatial", "scale=%g" % s, "edges=%s" % (len(E) if len(E) < 3 else ">=3")]}
+    tags = ["kind=" + kind, "planar" if planar else "spatial", "scale=%g" % s]
+    if mix.random() < 0.25:
+        V, E = add_zero_edge(mix, V, E)
+        tags.append("zero-length-edge")
+    return {"V": V, "E": E, "tags": tags + ["edges=%s" % (len(E) if len(E) < 3 else ">=3")]}
 
 
 @st.composite
 def polyline_case(draw):
     rnd = mixer(draw)
     p = draw(polylines(rnd))
-    p.update({"n": draw_count(draw, rnd), "pc": rnd.random() < 0.3, "V0": stale_geometry(rnd, p["V"]) if rnd.random() < 0.4 else None})
+    p.update({"n": draw_count(draw, rnd), "pc": rnd.random() < 0.3,
+              "V0": stale_geometry(rnd, p["V"], allow_dup=True) if rnd.random() < 0.4 else None,
+              "again": [rnd.randint(0, 80), rnd.random() < 0.3] if rnd.random() < 0.3 else None})
     return p
 
 
@@ -416,18 +498,34 @@ def seg_dist(P, A, B):
     return np.linalg.norm(D - t[:, :, None] * d, axis=2)
 
 
-def fn_polyline(case, ctx):
+def mesh_snapshot(mesh):
+    """what sampling must leave alone: coordinates, connectivity, and the names of the attributes stored on the mesh"""
+    snap = {"V": coords(mesh).tolist(), "vattr": sorted(mesh.vertices.attributes)}
+    if hasattr(mesh, "edges"):
+        snap["E"] = [[int(x) for x in e] for e in mesh.edges]
+        snap["eattr"] = sorted(mesh.edges.attributes)
+    if hasattr(mesh, "faces"):
+        snap["F"] = [[int(x) for x in f] for f in mesh.faces]
+        snap["fattr"] = sorted(mesh.faces.attributes)
+    return snap
+
+
+def check_unchanged(mesh, snap, ctx, sig, what):
+    now = mesh_snapshot(mesh)
+    diff = [k for k in snap if snap[k] != now[k]]
+    ctx.check(not diff, sig + ":mesh-mutated", f"{what}: the sampled mesh changed ({diff}: " +
+              "; ".join(f"{k} {str(snap[k])[:80]} -> {str(now[k])[:80]}" for k in diff if k.endswith("attr")) + ")")
+
+
+def check_polyline_sample(mesh, case, n, pc, ctx, note=""):
     from mouette import sampling
-    V, E, n, pc = np.array(case["V"], dtype=float), case["E"], case["n"], case["pc"]
-    for t in case["tags"]:
-        ctx.label(t)
-    ctx.label("pc" if pc else "array", "n=0" if n == 0 else "n>0")
-    ctx.nontrivial(len(E) >= 2 and n > 0)
-    mesh = build_mesh(case, "polyline", ctx)
-    what = f"sample_polyline(<{len(V)} vertices, edges {E}>, {n}, return_point_cloud={pc})" + STALE_NOTE * bool(case.get("V0"))
+    V, E = np.array(case["V"], dtype=float), case["E"]
+    what = f"sample_polyline(<{len(V)} vertices, edges {E}>, {n}, return_point_cloud={pc})" + STALE_NOTE * bool(case.get("V0")) + note
+    snap = mesh_snapshot(mesh)
     ok, res = ctx.call("polyline:call", sampling.sample_polyline, mesh, n, return_point_cloud=pc)
     if not ok:
         return
+    check_unchanged(mesh, snap, ctx, "polyline", what)
     P = as_points(res, pc, ctx, "polyline")
     if P is None:
         return
@@ -444,35 +542,61 @@ def fn_polyline(case, ctx):
               f"{what}: point {P[k].tolist()} is at distance {dist[k]:.3e} (> {tol:.1e}) from the nearest edge")
 
 
+def fn_polyline(case, ctx):
+    E, n, pc = case["E"], case["n"], case["pc"]
+    for t in case["tags"]:
+        ctx.label(t)
+    ctx.label("pc" if pc else "array", "n=0" if n == 0 else "n>0")
+    ctx.nontrivial(len(E) >= 2 and n > 0)
+    mesh = build_mesh(case, "polyline", ctx)
+    check_polyline_sample(mesh, case, n, pc, ctx)
+    if case.get("again"):
+        ctx.label("second-call")
+        check_polyline_sample(mesh, case, case["again"][0], case["again"][1], ctx, note=" [second request on the same mesh object]")
+
+
 # =============================================================================================== surfaces
 
 @st.composite
-def scaled_trisurf(draw, mix, max_faces=60):
+def scaled_trisurf(draw, mix, max_faces=60, degenerate=True):
     s = draw(G.well_shaped_trisurf(max_faces=max_faces))
-    k = 10.0 ** mix.choice([-3, -2, -1, 0, 0, 0, 1, 2, 3])
+    k = 10.0 ** mix.choice(SCALES)
     off = k * np.array(mix.choice([[0.0, 0.0, 0.0], [0.0, 0.0, 0.0], [1.0, -2.0, 0.5], [30.0, 10.0, -20.0]]))
     V = (np.array(s["V"], dtype=float) * k + off).tolist()
-    return {"V": V, "F": s["F"], "tags": s["tags"] + ["scale=%g" % k]}
+    F, tags = s["F"], s["tags"] + ["scale=%g" % k]
+    if degenerate and mix.random() < 0.25:
+        for _ in range(mix.choice([1, 1, 2])):
+            V, F, t = add_degenerate_faces(mix, V, F)
+            tags = tags + [t]
+        tags.append("degenerate-faces")
+    return {"V": V, "F": F, "tags": tags}
 
 
 @st.composite
 def surface_case(draw):
     rnd = mixer(draw)
     s = draw(scaled_trisurf(rnd))
-    s.update({"n": draw_count(draw, rnd), "pc": rnd.random() < 0.5, "normals": rnd.random() < 0.6,
-              "V0": stale_geometry(rnd, s["V"], s["F"]) if rnd.random() < 0.4 else None})
+    deg = "degenerate-faces" in s["tags"]
+    # normals are only requested when every face has one (face_normals raises on a zero-area face: outside the property's domain)
+    s.update({"n": draw_count(draw, rnd), "pc": rnd.random() < 0.5, "normals": rnd.random() < 0.6 and not deg,
+              "V0": stale_geometry(rnd, s["V"], s["F"], allow_dup=True) if rnd.random() < 0.4 else None})
+    s["again"] = [rnd.randint(0, 80), rnd.random() < 0.5, rnd.random() < 0.5 and not deg] if rnd.random() < 0.3 else None
     return s
 
 
 def tri_frames(V, F):
+    """per-face frames; degenerate faces (see `nondegenerate`) get area 0 and contain no point: a sample on such a face (a segment or a
+    point) is legitimate only if it also lies in a neighbouring proper face"""
     A, B, C = V[F[:, 0]], V[F[:, 1]], V[F[:, 2]]
+    good = nondegenerate(V, F)
     N = np.cross(B - A, C - A)
-    dbl = np.linalg.norm(N, axis=1)
-    Nu = N / dbl[:, None]
+    dbl = np.where(good, np.linalg.norm(N, axis=1), 0.0)
+    Nu = np.where(good[:, None], N / np.where(good, dbl, 1.0)[:, None], 0.0)
 
     def unit(x):
-        return x / np.linalg.norm(x, axis=1)[:, None]
-    return {"A": A, "B": B, "C": C, "N": Nu, "area": dbl / 2,
+        nx = np.linalg.norm(x, axis=1)
+        return np.where(good[:, None], x / np.where(good, nx, 1.0)[:, None], 0.0)
+    return {"A": A, "B": B, "C": C, "N": Nu, "area": dbl / 2, "good": good,
             "eAB": unit(np.cross(Nu, B - A)), "eBC": unit(np.cross(Nu, C - B)), "eCA": unit(np.cross(Nu, A - C))}
 
 
@@ -485,23 +609,19 @@ def insideness(P, fr):
     s1 = np.einsum("nmk,mk->nm", DA, fr["eAB"])
     s2 = np.einsum("nmk,mk->nm", DB, fr["eBC"])
     s3 = np.einsum("nmk,mk->nm", DA, fr["eCA"])
-    return np.minimum(np.minimum(s1, s2), np.minimum(s3, -dpl))
+    return np.where(fr["good"][None, :], np.minimum(np.minimum(s1, s2), np.minimum(s3, -dpl)), -np.inf)
 
 
-def fn_surface(case, ctx):
-    import mouette as M
+def check_surface_sample(mesh, case, n, pc, wn, ctx, note=""):
     from mouette import sampling
-    V, F, n, pc, wn = np.array(case["V"], dtype=float), np.array(case["F"], dtype=int), case["n"], case["pc"], case["normals"]
-    for t in case["tags"]:
-        if t.startswith(("base=", "scale=", "closed", "bordered")):
-            ctx.label(t)
-    ctx.label("pc" if pc else "array", "normals" if wn else "no-normals", "n=0" if n == 0 else "n>0")
-    ctx.nontrivial(len(F) >= 2 and n > 0)
-    mesh = build_mesh(case, "surface", ctx, normals=wn)
-    what = f"sample_surface(<{len(V)} vertices, {len(F)} triangles>, {n}, return_point_cloud={pc}, return_normals={wn})" + STALE_NOTE * bool(case.get("V0"))
+    V, F = np.array(case["V"], dtype=float), np.array(case["F"], dtype=int)
+    what = (f"sample_surface(<{len(V)} vertices, {len(F)} triangles>, {n}, return_point_cloud={pc}, return_normals={wn})"
+            + STALE_NOTE * bool(case.get("V0")) + note)
+    snap = mesh_snapshot(mesh)
     ok, res = ctx.call("surface:call", sampling.sample_surface, mesh, n, return_point_cloud=pc, return_normals=wn)
     if not ok:
         return
+    check_unchanged(mesh, snap, ctx, "surface", what)
     NRM = None
     if wn and not pc:
         if not ctx.check(isinstance(res, tuple) and len(res) == 2, "surface:type", f"{what}: expected (points, normals), got {type(res).__name__}"):
@@ -532,7 +652,8 @@ def fn_surface(case, ctx):
     best = ins.max(axis=1)
     k = int(np.argmin(best))
     if not ctx.check(bool(best[k] >= -tol), "surface:off-face",
-                     f"{what}: point {P[k].tolist()} is in no face (closest: face {int(np.argmax(ins[k]))}, outside by {-best[k]:.3e} > {tol:.1e})"):
+                     f"{what}: point {P[k].tolist()} is in no face of positive area (closest: face {int(np.argmax(ins[k]))}, outside by {-best[k]:.3e} > {tol:.1e}; "
+                     f"zero-area faces: {np.flatnonzero(~fr['good']).tolist()})"):
         return
     if NRM is not None:
         match = (np.abs(NRM[:, None, :] - fr["N"][None]).max(axis=2) <= 1e-9) & (ins >= -tol)
@@ -546,6 +667,21 @@ def fn_surface(case, ctx):
             ctx.check(True, "surface:normal")
 
 
+def fn_surface(case, ctx):
+    F, n, pc, wn = case["F"], case["n"], case["pc"], case["normals"]
+    for t in case["tags"]:
+        if t.startswith(("base=", "scale=", "closed", "bordered", "degenerate")):
+            ctx.label(t)
+    ctx.label("pc" if pc else "array", "normals" if wn else "no-normals", "n=0" if n == 0 else "n>0")
+    ctx.nontrivial(len(F) >= 2 and n > 0)
+    mesh = build_mesh(case, "surface", ctx, normals=wn or bool(case.get("again") and case["again"][2]))
+    check_surface_sample(mesh, case, n, pc, wn, ctx)
+    if case.get("again"):
+        ctx.label("second-call")
+        n2, pc2, wn2 = case["again"]
+        check_surface_sample(mesh, case, n2, pc2, wn2, ctx, note=" [second request on the same mesh object]")
+
+
 # =============================================================================================== statistical sub-checks
 
 N_STAT = 4000
@@ -557,7 +693,7 @@ def stat_case(draw, kind):
     if kind == "polyline":
         p = draw(polylines(rnd, min_edges=2))
     else:
-        p = draw(scaled_trisurf(rnd, max_faces=40))
+        p = draw(scaled_trisurf(rnd, max_faces=40, degenerate=False))
         if len(p["F"]) < 2:                   # a share test needs two faces: split the single triangle at its centroid
             p["V"], p["F"] = G.op_tri_1to3(p["V"], p["F"], 0)
         if rnd.random() < 0.7:
@@ -567,11 +703,15 @@ def stat_case(draw, kind):
             if G.min_angle_deg(W.tolist(), p["F"]) >= 3.0:
                 p["V"] = W.tolist()
                 p["tags"] = p["tags"] + ["stretched"]
+        if rnd.random() < 0.4:                  # zero-area faces in the middle of the face list: share 0, the others keep their area share
+            for _ in range(rnd.choice([1, 1, 2])):
+                p["V"], p["F"], t = add_degenerate_faces(rnd, p["V"], p["F"])
+            p["tags"] = p["tags"] + ["degenerate-faces"]
     p["kind"] = kind
     p["V0"] = None
     if rnd.random() < 0.5:
         for _ in range(4):                      # the degeneracy guard rejects some stretches of already stretched surfaces: retry
-            p["V0"] = stale_geometry(rnd, p["V"], p.get("F"))
+            p["V0"] = stale_geometry(rnd, p["V"], p.get("F"), allow_dup=True)
             if p["V0"]:
                 break
     p["salt"] = rnd.randrange(10 ** 6)       # only varies the seed derived from the case
@@ -621,8 +761,13 @@ def fn_stat(case, ctx):
     share = weight / weight.sum()
     counts = np.bincount(owner, minlength=m)
     ctx.label("m=%s" % (m if m < 3 else "3-9" if m < 10 else ">=10"))
-    uneven = float(share.max() / share.min()) >= 2.0
+    uneven = float(share.max() / share[share > 0].min()) >= 2.0
     ctx.label("uneven" if uneven else "even")
+    for t in case.get("tags", []):
+        if t in ("degenerate-faces", "zero-length-edge"):
+            ctx.label(t)
+    if (share == 0).any():
+        ctx.label("zero-share-not-last" if share[-1] > 0 else "zero-share-last")
     ctx.nontrivial(m >= 2 and uneven)
     alpha = 1e-8 / (2 * m)
     for j in range(m):
@@ -675,7 +820,7 @@ T_OUT = st.one_of(st.sampled_from([-1e-9, 1.000000001, -1.0, 2.0, -0.5, 1.5, -1,
 def control_net(rnd, shape):
     """control points from the PRNG: small integers / unit box / log-uniform magnitudes / the latter around a far offset"""
     dim = rnd.choice([2, 3])
-    style = rnd.choice(["int", "unit", "log", "log-offset"])
+    style = rnd.choice(["int", "int", "unit", "log", "log-offset", "tiny", "huge"])
     off = [rslog(rnd) for _ in range(dim)] if style == "log-offset" else [0.0] * dim
 
     def point():
@@ -683,6 +828,8 @@ def control_net(rnd, shape):
             return [float(rnd.randint(-6, 6)) for _ in range(dim)]
         if style == "unit":
             return [sig6(rnd.uniform(-1, 1)) for _ in range(dim)]
+        if style in ("tiny", "huge"):           # uniformly scaled nets: every tolerance is relative to the scale of the control points
+            return [sig6(rnd.uniform(-1, 1) * (1e-6 if style == "tiny" else 1e6)) for _ in range(dim)]
         return [sig6(off[k] + rslog(rnd)) for k in range(dim)]
     if len(shape) == 1:
         return [point() for _ in range(shape[0])], style
@@ -699,8 +846,8 @@ def curve_case(draw):
         custom = sorted(draw(st.lists(T_IN, min_size=2, max_size=9)))
     ts = [sig6(rnd.random()) for _ in range(rnd.randint(1, 3))]
     return {"P": P, "style": style, "ts_in": ts + draw(st.lists(T_IN, max_size=4)), "ts_out": draw(st.lists(T_OUT, max_size=3)),
-            "n": rnd.randint(2, 9), "custom": custom, "dir_seed": rnd.randrange(10 ** 6),
-            "ctor": rnd.choice(["list", "numpy", "vec"])}
+            "n": rnd.randint(2, 9), "n_again": rnd.randint(2, 9), "custom": custom, "dir_seed": rnd.randrange(10 ** 6),
+            "ctor": rnd.choice(["list", "numpy", "vec"] + ["numpy-int", "vec-int"] * (style == "int"))}
 
 
 def directions(seed, dim):
@@ -738,10 +885,12 @@ def fn_curve(case, ctx):
     scale = max(float(np.max(np.abs(P))), 1e-300)
     D = directions(case["dir_seed"], dim)
     ctor = {"list": lambda: [list(p) for p in case["P"]], "numpy": lambda: np.array(case["P"], dtype=float),
-            "vec": lambda: [M.Vec(*p) for p in case["P"]]}[case["ctor"]]
-    ctx.label("deg=%d" % deg, "dim=%d" % dim, "style=" + case["style"], "custom" if case["custom"] else "linspace")
+            "vec": lambda: [M.Vec(*p) for p in case["P"]], "numpy-int": lambda: np.array(case["P"]).astype(int),
+            "vec-int": lambda: [M.Vec(*[int(x) for x in p]) for p in case["P"]]}[case["ctor"]]
+    ctx.label("deg=%d" % deg, "dim=%d" % dim, "style=" + case["style"], "custom" if case["custom"] else "linspace", "ctor=" + case["ctor"])
     ctx.nontrivial(deg >= 2)
-    curve = BezierCurve(ctor())
+    arg = ctor()
+    curve = BezierCurve(arg)
     ctx.check(curve.order == deg, "curve:order", f"order = {curve.order!r} for {deg + 1} control points")
 
     def evaluate(t, tag):
@@ -769,34 +918,41 @@ def fn_curve(case, ctx):
         ctx.label("out-of-range")
         expect_raises(ctx, "curve:range", (InvalidRangeArgumentError,), f"evaluate({t!r}) outside [0,1]", curve.evaluate, t)
 
-    # export
-    if case["custom"]:
-        ts = [float(t) for t in case["custom"]]
-        ok, pl = ctx.call("curve:as_polyline", curve.as_polyline, custom_pos=list(case["custom"]))
-        what = f"as_polyline(custom_pos={case['custom']})"
-    else:
-        ts = np.linspace(0, 1, case["n"]).tolist()
-        ok, pl = ctx.call("curve:as_polyline", curve.as_polyline, case["n"])
-        what = f"as_polyline({case['n']})"
-    if not ok:
-        return
-    n = len(ts)
-    if not ctx.check(isinstance(pl, M.mesh.PolyLine), "curve:polyline-type", f"{what} returned {type(pl).__name__}"):
-        return
-    if not ctx.check(len(pl.vertices) == n, "curve:polyline-vertices", f"{what} (degree {deg}, dim {dim}): {len(pl.vertices)} vertices, expected {n}"):
-        return
-    edges = [tuple(int(x) for x in e) for e in pl.edges]
-    ctx.check(edges == [(i, i + 1) for i in range(n - 1)], "curve:polyline-edges", f"{what}: edges {edges}, expected the chain 0-1-...-{n - 1}")
-    X = coords(pl)
-    ref = np.zeros((n, 3))
-    ref[:, :dim] = np.array([RB.curve(P, t) for t in ts])
-    bad = np.abs(X - ref).max(axis=1) > 1e-12 * scale
-    ctx.check(not bad.any(), "curve:polyline-positions",
-              f"{what}: vertex {int(np.argmax(bad))} = {X[int(np.argmax(bad))].tolist()}, curve at t={ts[int(np.argmax(bad))]} is {ref[int(np.argmax(bad))].tolist()}")
-    if ctx.check(pl.vertices.has_attribute("t"), "curve:polyline-attr", f"{what}: no vertex attribute 't'"):
-        att = pl.vertices.get_attribute("t")
-        got = [float(att[i]) for i in range(n)]
-        ctx.check(ctx.close(got, ts, 1e-15, 1.0), "curve:polyline-attr", f"{what}: attribute t = {got}, expected {ts}")
+    def export(custom, n_req, note=""):
+        if custom:
+            ts = [float(t) for t in custom]
+            ok, pl = ctx.call("curve:as_polyline", curve.as_polyline, custom_pos=list(custom))
+            what = f"as_polyline(custom_pos={custom}){note}"
+        else:
+            ts = np.linspace(0, 1, n_req).tolist()
+            ok, pl = ctx.call("curve:as_polyline", curve.as_polyline, n_req)
+            what = f"as_polyline({n_req}){note}"
+        if not ok:
+            return
+        n = len(ts)
+        if not ctx.check(isinstance(pl, M.mesh.PolyLine), "curve:polyline-type", f"{what} returned {type(pl).__name__}"):
+            return
+        if not ctx.check(len(pl.vertices) == n, "curve:polyline-vertices", f"{what} (degree {deg}, dim {dim}): {len(pl.vertices)} vertices, expected {n}"):
+            return
+        edges = [tuple(int(x) for x in e) for e in pl.edges]
+        ctx.check(edges == [(i, i + 1) for i in range(n - 1)], "curve:polyline-edges", f"{what}: edges {edges}, expected the chain 0-1-...-{n - 1}")
+        X = coords(pl)
+        ref = np.zeros((n, 3))
+        ref[:, :dim] = np.array([RB.curve(P, t) for t in ts])
+        bad = np.abs(X - ref).max(axis=1) > 1e-12 * scale
+        ctx.check(not bad.any(), "curve:polyline-positions",
+                  f"{what}: vertex {int(np.argmax(bad))} = {X[int(np.argmax(bad))].tolist()}, curve at t={ts[int(np.argmax(bad))]} is {ref[int(np.argmax(bad))].tolist()}")
+        if ctx.check(pl.vertices.has_attribute("t"), "curve:polyline-attr", f"{what}: no vertex attribute 't'"):
+            att = pl.vertices.get_attribute("t")
+            got = [float(att[i]) for i in range(n)]
+            ctx.check(ctx.close(got, ts, 1e-15, 1.0), "curve:polyline-attr", f"{what}: attribute t = {got}, expected {ts}")
+
+    export(case["custom"], case["n"])
+    export(None, case.get("n_again", 3), " [second export of the same curve object]")
+    # the control points (the object's and the caller's) are left alone by evaluation and export
+    now = np.array([np.asarray(x, dtype=float).reshape(-1) for x in curve.pts], dtype=float)
+    ctx.check(now.shape == P.shape and bool(np.all(now == P)), "curve:control-points-mutated", f"control points {case['P']} became {now.tolist()}")
+    ctx.check(bool(np.all(np.asarray(arg, dtype=float) == P)), "curve:argument-mutated", f"the control point argument {case['P']} became {np.asarray(arg, dtype=float).tolist()}")
 
 
 @st.composite
@@ -809,7 +965,8 @@ def patch_case(draw):
     uv = [[sig6(rnd.random()), sig6(rnd.random())] for _ in range(rnd.randint(1, 3))]
     return {"P": P, "style": style, "uv_in": uv + draw(st.lists(st.tuples(T_IN, T_IN).map(list), max_size=3)),
             "uv_out": draw(st.lists(st.one_of(st.tuples(T_OUT, T_IN), st.tuples(T_IN, T_OUT), st.tuples(T_OUT, T_OUT)).map(list), max_size=3)),
-            "n1": n1, "n2": n2, "dir_seed": rnd.randrange(10 ** 6), "ctor": rnd.choice(["list", "numpy", "vec"])}
+            "n1": n1, "n2": n2, "dir_seed": rnd.randrange(10 ** 6),
+            "ctor": rnd.choice(["list", "numpy", "vec"] + ["numpy-int", "vec-int"] * (style == "int"))}
 
 
 def fn_patch(case, ctx):
@@ -823,11 +980,14 @@ def fn_patch(case, ctx):
     flat = P.reshape(-1, dim)
     D = directions(case["dir_seed"], dim)
     ctor = {"list": lambda: [[list(p) for p in row] for row in case["P"]], "numpy": lambda: np.array(case["P"], dtype=float),
-            "vec": lambda: [[M.Vec(*p) for p in row] for row in case["P"]]}[case["ctor"]]
+            "vec": lambda: [[M.Vec(*p) for p in row] for row in case["P"]], "numpy-int": lambda: np.array(case["P"]).astype(int),
+            "vec-int": lambda: [[M.Vec(*[int(x) for x in p]) for p in row] for row in case["P"]]}[case["ctor"]]
     ctx.label("deg=%dx%d" % (m, n) if max(m, n) < 2 else "deg>=2", "dim=%d" % dim, "style=" + case["style"],
               "n1=n2" if n1 == n2 else "n1<n2" if n1 < n2 else "n1>n2", "square-net" if m == n else "rect-net")
     ctx.nontrivial(n1 != n2)
-    patch = BezierPatch(ctor())
+    ctx.label("ctor=" + case["ctor"])
+    arg = ctor()
+    patch = BezierPatch(arg)
     ctx.check(tuple(patch.order) == (m, n), "patch:order", f"order = {patch.order!r} for a {m + 1} x {n + 1} control net")
 
     def evaluate(u, v, tag):
@@ -854,56 +1014,62 @@ def fn_patch(case, ctx):
         ctx.label("out-of-range")
         expect_raises(ctx, "patch:range", (InvalidRangeArgumentError,), f"evaluate({u!r},{v!r}) outside [0,1]^2", patch.evaluate, u, v)
 
-    # export
-    what = f"as_surface({n1},{n2}) of a {m}x{n} patch"
-    ok, S = ctx.call("patch:as_surface", patch.as_surface, n1, n2)
-    if not ok:
-        return
-    if not ctx.check(isinstance(S, M.mesh.SurfaceMesh), "patch:surface-type", f"{what} returned {type(S).__name__}"):
-        return
-    nv = len(S.vertices)
-    if not ctx.check(nv == n1 * n2, "patch:surface-vertices", f"{what}: {nv} vertices, expected {n1 * n2}"):
-        return
-    if not ctx.check(S.vertices.has_attribute("uv_coords"), "patch:surface-uv", f"{what}: no vertex attribute 'uv_coords'"):
-        return
-    att = S.vertices.get_attribute("uv_coords")
-    ok, UV = ctx.call("patch:surface-uv", lambda: np.array([np.asarray(att[k], dtype=float).reshape(2) for k in range(nv)], dtype=float))
-    if not ok:
-        return
-    U, Vp = np.linspace(0, 1, n1), np.linspace(0, 1, n2)
-    I = np.rint(UV[:, 0] * (n1 - 1)).astype(int)
-    J = np.rint(UV[:, 1] * (n2 - 1)).astype(int)
-    ongrid = (I >= 0) & (I < n1) & (J >= 0) & (J < n2)
-    ongrid &= (np.abs(UV[:, 0] - U[np.clip(I, 0, n1 - 1)]) <= 1e-12) & (np.abs(UV[:, 1] - Vp[np.clip(J, 0, n2 - 1)]) <= 1e-12)
-    if not ctx.check(bool(ongrid.all()), "patch:surface-uv", f"{what}: uv_coords {UV[~ongrid][:3].tolist()} are not nodes of linspace(0,1,{n1}) x linspace(0,1,{n2})"):
-        return
-    ctx.check(len(set(zip(I.tolist(), J.tolist()))) == nv, "patch:surface-uv", f"{what}: some parameter pair appears on several vertices")
-    for k in range(nv):
-        x = np.asarray(S.vertices[k], dtype=float).reshape(-1)
-        ref = RB.patch(P, UV[k, 0], UV[k, 1])
-        good = x.size in (dim, 3) and ctx.close(x[:dim], ref, 1e-12, scale) and bool(np.all(x[dim:] == 0))
-        if not ctx.check(good, "patch:surface-positions", f"{what}: vertex {k} = {x.tolist()} but the patch at its uv_coords {UV[k].tolist()} is {ref.tolist()}"):
+    def export(n1, n2, note=""):
+        what = f"as_surface({n1},{n2}) of a {m}x{n} patch{note}"
+        ok, S = ctx.call("patch:as_surface", patch.as_surface, n1, n2)
+        if not ok:
             return
-    faces = [[int(x) for x in f] for f in S.faces]
-    if not ctx.check(len(faces) == (n1 - 1) * (n2 - 1), "patch:surface-faces", f"{what}: {len(faces)} faces, expected {(n1 - 1) * (n2 - 1)}"):
-        return
-    cells = set()
-    for f in faces:
-        if not ctx.check(len(f) == 4 and all(0 <= x < nv for x in f), "patch:face-index-range",
-                         f"{what}: face {f} is not a quad with indices in [0,{nv}) (all faces: {faces[:12]}{'...' if len(faces) > 12 else ''})"):
+        if not ctx.check(isinstance(S, M.mesh.SurfaceMesh), "patch:surface-type", f"{what} returned {type(S).__name__}"):
             return
-        ij = [(int(I[x]), int(J[x])) for x in f]
-        i0, j0 = min(a for a, _ in ij), min(b for _, b in ij)
-        ring = [(i0, j0), (i0, j0 + 1), (i0 + 1, j0 + 1), (i0 + 1, j0)]
-        k0 = ij.index(ring[0]) if ring[0] in ij else 0
-        rot = ij[k0:] + ij[:k0]
-        isring = rot == ring or rot == [ring[0]] + ring[:0:-1]
-        if not ctx.check(isring, "patch:face-not-a-grid-cell",
-                         f"{what}: face {f} joins the grid nodes (i,j) = {ij} (uv {[UV[x].tolist() for x in f]}), which is not the boundary of one cell "
-                         f"[i,i+1]x[j,j+1] of the {n1}x{n2} parameter grid"):
+        nv = len(S.vertices)
+        if not ctx.check(nv == n1 * n2, "patch:surface-vertices", f"{what}: {nv} vertices, expected {n1 * n2}"):
             return
-        cells.add((i0, j0))
-    ctx.check(len(cells) == len(faces), "patch:face-duplicate", f"{what}: only {len(cells)} distinct grid cells among {len(faces)} faces")
+        if not ctx.check(S.vertices.has_attribute("uv_coords"), "patch:surface-uv", f"{what}: no vertex attribute 'uv_coords'"):
+            return
+        att = S.vertices.get_attribute("uv_coords")
+        ok, UV = ctx.call("patch:surface-uv", lambda: np.array([np.asarray(att[k], dtype=float).reshape(2) for k in range(nv)], dtype=float))
+        if not ok:
+            return
+        U, Vp = np.linspace(0, 1, n1), np.linspace(0, 1, n2)
+        I = np.rint(UV[:, 0] * (n1 - 1)).astype(int)
+        J = np.rint(UV[:, 1] * (n2 - 1)).astype(int)
+        ongrid = (I >= 0) & (I < n1) & (J >= 0) & (J < n2)
+        ongrid &= (np.abs(UV[:, 0] - U[np.clip(I, 0, n1 - 1)]) <= 1e-12) & (np.abs(UV[:, 1] - Vp[np.clip(J, 0, n2 - 1)]) <= 1e-12)
+        if not ctx.check(bool(ongrid.all()), "patch:surface-uv", f"{what}: uv_coords {UV[~ongrid][:3].tolist()} are not nodes of linspace(0,1,{n1}) x linspace(0,1,{n2})"):
+            return
+        ctx.check(len(set(zip(I.tolist(), J.tolist()))) == nv, "patch:surface-uv", f"{what}: some parameter pair appears on several vertices")
+        for k in range(nv):
+            x = np.asarray(S.vertices[k], dtype=float).reshape(-1)
+            ref = RB.patch(P, UV[k, 0], UV[k, 1])
+            good = x.size in (dim, 3) and ctx.close(x[:dim], ref, 1e-12, scale) and bool(np.all(x[dim:] == 0))
+            if not ctx.check(good, "patch:surface-positions", f"{what}: vertex {k} = {x.tolist()} but the patch at its uv_coords {UV[k].tolist()} is {ref.tolist()}"):
+                return
+        faces = [[int(x) for x in f] for f in S.faces]
+        if not ctx.check(len(faces) == (n1 - 1) * (n2 - 1), "patch:surface-faces", f"{what}: {len(faces)} faces, expected {(n1 - 1) * (n2 - 1)}"):
+            return
+        cells = set()
+        for f in faces:
+            if not ctx.check(len(f) == 4 and all(0 <= x < nv for x in f), "patch:face-index-range",
+                             f"{what}: face {f} is not a quad with indices in [0,{nv}) (all faces: {faces[:12]}{'...' if len(faces) > 12 else ''})"):
+                return
+            ij = [(int(I[x]), int(J[x])) for x in f]
+            i0, j0 = min(a for a, _ in ij), min(b for _, b in ij)
+            ring = [(i0, j0), (i0, j0 + 1), (i0 + 1, j0 + 1), (i0 + 1, j0)]
+            k0 = ij.index(ring[0]) if ring[0] in ij else 0
+            rot = ij[k0:] + ij[:k0]
+            isring = rot == ring or rot == [ring[0]] + ring[:0:-1]
+            if not ctx.check(isring, "patch:face-not-a-grid-cell",
+                             f"{what}: face {f} joins the grid nodes (i,j) = {ij} (uv {[UV[x].tolist() for x in f]}), which is not the boundary of one cell "
+                             f"[i,i+1]x[j,j+1] of the {n1}x{n2} parameter grid"):
+                return
+            cells.add((i0, j0))
+        ctx.check(len(cells) == len(faces), "patch:face-duplicate", f"{what}: only {len(cells)} distinct grid cells among {len(faces)} faces")
+
+    export(n1, n2)
+    export(n2, n1, " [second export of the same patch object, resolutions swapped]")
+    now = np.array([[np.asarray(x, dtype=float).reshape(-1) for x in row] for row in patch.pts], dtype=float)
+    ctx.check(now.shape == P.shape and bool(np.all(now == P)), "patch:control-points-mutated", f"control net {case['P']} became {now.tolist()}")
+    ctx.check(bool(np.all(np.asarray(arg, dtype=float) == P)), "patch:argument-mutated", f"the control net argument {case['P']} became {np.asarray(arg, dtype=float).tolist()}")
 
 
 # =============================================================================================== registration
@@ -935,8 +1101,8 @@ SUBCHECKS = [
     SubCheck("stat_share_polyline", stat_case("polyline"), fn_stat, quick=48, thorough=60),
     SubCheck("stat_share_surface", stat_case("surface"), fn_stat, quick=48, thorough=60),
     SubCheck("stat_ball_radial", stat_ball_case(), fn_stat_ball, quick=48, thorough=60),
-    SubCheck("bezier_curve", curve_case(), fn_curve, quick=3000, thorough=8000),
-    SubCheck("bezier_patch", patch_case(), fn_patch, quick=2000, thorough=5000),
+    SubCheck("bezier_curve", curve_case(), fn_curve, quick=2500, thorough=8000),
+    SubCheck("bezier_patch", patch_case(), fn_patch, quick=1500, thorough=5000),
 ]
 
 MATCHERS = {}
